@@ -43,7 +43,8 @@ def _hook(event, args):
     if not _MON["on"] or event not in _AUDIT:
         return
     try:
-        paths = [a for a in args[:2] if isinstance(a, (str, bytes))]
+        npaths = 2 if event in ("os.rename", "os.symlink", "os.link") else 1  # open's second argument is the MODE, not a path
+        paths = [a for a in args[:npaths] if isinstance(a, (str, bytes))]
         for p in paths:
             if isinstance(p, bytes):
                 p = p.decode("utf-8", "replace")
@@ -162,7 +163,7 @@ def _fs(root):
 # ---------------------------------------------------------------------------------------------
 STORAGE_EPS = ["read_file", "read_json", "open_file", "open_seekable", "write_file", "write_json", "exists", "list_files", "delete_file", "makedirs",
                "get_size", "get_modified_time", "create_lock"]
-DFM_EPS = ["dfm.read_data_file", "dfm.open_parquet_source", "dfm.write_data_file", "dfm._get_arrow_path", "table._resolve_file_path", "tx.append_files", "tx.delete_files"]
+DFM_EPS = ["dfm.read_data_file", "dfm.open_parquet_source", "dfm.write_data_file", "dfm._get_arrow_path", "table._resolve_file_path", "dfm.write_data_file:fault", "tx.append_files", "tx.delete_files"]
 
 
 def call_ep(L, ep, path):
@@ -215,6 +216,24 @@ def call_ep(L, ep, path):
             f.close()
     if ep == "dfm.write_data_file":
         return dfm.write_data_file(path, [{"k": 9, "s": "w"}], make_schema(FIELDS))
+    if ep == "dfm.write_data_file:fault":
+        # the write fails half-way (disk full) while the process's working directory is the SIBLING table, whose files have the
+        # same table-relative names: whatever the library cleans up must be addressed through the resolved path
+        import datashard.data_operations as DO
+
+        orig = DO.DataFileWriter.write_records
+
+        def boom(self, *a, **k):
+            raise OSError(28, "injected: no space left on device")
+
+        cwd = os.getcwd()
+        DO.DataFileWriter.write_records = boom
+        os.chdir(os.path.join(L.parent, "root2"))
+        try:
+            return dfm.write_data_file(path, [{"k": 9, "s": "w"}], make_schema(FIELDS))
+        finally:
+            os.chdir(cwd)
+            DO.DataFileWriter.write_records = orig
     if ep == "dfm._get_arrow_path":
         return dfm._get_arrow_path(path)
     if ep == "table._resolve_file_path":
@@ -590,7 +609,7 @@ def plan(tier, seed):
         tasks.append({"kind": "paths", "depth": 2, "eps": STORAGE_EPS + DFM_EPS, "via_symlink": via, "shard": 0, "nshard": 1})
         ns = 5
         for s in range(ns):
-            tasks.append({"kind": "paths", "depth": 3, "eps": STORAGE_EPS + DFM_EPS[:5], "via_symlink": via, "shard": s, "nshard": ns})
+            tasks.append({"kind": "paths", "depth": 3, "eps": STORAGE_EPS + DFM_EPS[:6], "via_symlink": via, "shard": s, "nshard": ns})
         ns = 3 if tier == "quick" else 2
         for s in range(ns):
             tasks.append({"kind": "tamper", "via_symlink": via, "shard": s, "nshard": ns})
